@@ -148,6 +148,9 @@ pub fn record_schema(a: &Args) {
     let max_elems = a.num("elems", 30) as usize;
     let damage_pct = a.num("damage", 8) as usize;
     let boundary_only = a.num("boundary-only", 0) == 1;
+    // --cfgs 1: a third of the documents are read with trim_text / expand_empty_elements switched on (the independent
+    // reader pass uses the same configuration, so the expected schema is the one of the events that reader delivers)
+    let cfgs = a.num("cfgs", 0) == 1;
     let mut o = Out::create(&a.req("out"));
     let mut renders = a.get("render-trace").map(|p| Out::create(&p));
     let mut calls = 0usize;
@@ -190,7 +193,11 @@ pub fn record_schema(a: &Args) {
             if boundary.is_none() && r.chance(damage_pct, 100) {
                 bytes = damage(&mut r, &bytes);
             }
-            let cfg = ReaderCfg::default_cfg();
+            let mut cfg = ReaderCfg::default_cfg();
+            if cfgs && r.chance(1, 3) {
+                cfg.trim_text = r.chance(1, 2);
+                cfg.expand_empty = r.chance(1, 2);
+            }
             let op = if sess.tree.is_some() { "extend" } else { "parse" };
             let obs = observe(&bytes, &cfg);
             let out = sess.feed(&bytes, &cfg, 0);
